@@ -260,6 +260,46 @@ impl ClientAsyncWriteBody<Vec<u8>> for SliceBody {
     }
 }
 
+/// a transport's writer that takes a few bytes per `write` call, as a socket may
+pub struct Dribble {
+    pub buf: Vec<u8>,
+    pub max: usize,
+}
+
+impl std::io::Write for Dribble {
+    fn write(&mut self, b: &[u8]) -> std::io::Result<usize> {
+        let n = b.len().min(self.max);
+        self.buf.extend_from_slice(&b[..n]);
+        Ok(n)
+    }
+    fn flush(&mut self) -> std::io::Result<()> {
+        Ok(())
+    }
+}
+
+/// the loopback client behind such a writer
+#[derive(Clone)]
+pub struct DribbleClient(pub LoopClient, pub usize);
+
+impl Client for DribbleClient {
+    type BodyWriter = Dribble;
+    type ResponseBody = RemoteBody;
+
+    fn send(&self, req: Request<RequestBody<'_, Dribble>>) -> Result<Response<RemoteBody>, Error> {
+        let (parts, body) = req.into_parts();
+        let body: RequestBody<'_, Vec<u8>> = match body {
+            RequestBody::Empty => RequestBody::Empty,
+            RequestBody::Fixed(b) => RequestBody::Fixed(b),
+            RequestBody::Streaming(mut w) => {
+                let mut d = Dribble { buf: vec![], max: self.1 };
+                ClientWriteBody::write_body(&mut *w, &mut d)?;
+                RequestBody::Streaming(Box::new(SliceBody(d.buf)))
+            }
+        };
+        Client::send(&self.0, Request::from_parts(parts, body))
+    }
+}
+
 pub fn drain(b: RemoteBody) -> Vec<u8> {
     b.drain()
 }
